@@ -208,6 +208,27 @@ func runC19(c *engine.Ctx) {
 			}
 		}
 	}
+	// one proposal, every combination of 0 / 1 / 4 / 5 / 6 transforms in each of its five lists, the lists filled
+	// in forward and in reverse order (kind 4 / 5): a list that grows must not reach into its neighbours
+	counts := []int{0, 1, 4, 5, 6}
+	for a := range counts {
+		for b := range counts {
+			if !c.Mine() {
+				continue
+			}
+			for d := range counts {
+				for e := range counts {
+					for f := range counts {
+						if a+b+d+e+f == 0 || ((a+b+d+e+f)%2 == 1 && !c.Thorough()) {
+							continue // (a proposal without transforms is outside the encodable domain)
+						}
+						c19Nested(c, 4, []int{counts[a], counts[b], counts[d], counts[e], counts[f]})
+						c19Nested(c, 5, []int{counts[a], counts[b], counts[d], counts[e], counts[f]})
+					}
+				}
+			}
+		}
+	}
 	// argument sweeps
 	for kind := 0; kind < c19SweepKinds; kind++ {
 		for _, a := range c19SweepArgs(kind, c.Thorough()) {
@@ -788,6 +809,28 @@ func c19Nested(c *engine.Ctx, kind int, seq []int) {
 				cp.ConfigurationAttribute.BuildConfigurationAttribute(a.Type, a.Val)
 				want.CP = append(want.CP, a)
 			}
+		case 4, 5:
+			name = "BuildTransform(per list)"
+			sa := cont.BuildSecurityAssociation()
+			p := sa.Proposals.BuildProposal(1, 3, []byte{1, 2, 3, 4})
+			wp := ref.Proposal{Num: 1, Proto: 3, SPI: []byte{1, 2, 3, 4}}
+			lists := []*message.TransformContainer{&p.EncryptionAlgorithm, &p.PseudorandomFunction, &p.IntegrityAlgorithm, &p.DiffieHellmanGroup, &p.ExtendedSequenceNumbers}
+			perType := make([][]ref.Transform, 5)
+			order := []int{0, 1, 2, 3, 4}
+			if kind == 5 {
+				order = []int{4, 3, 2, 1, 0}
+			}
+			for _, li := range order {
+				for k := 0; k < seq[li]; k++ {
+					id := uint16(10*li + k + 1)
+					lists[li].BuildTransform(uint8(li+1), id, nil, nil, nil)
+					perType[li] = append(perType[li], ref.Transform{Type: uint8(li + 1), ID: id})
+				}
+			}
+			for _, l := range perType {
+				wp.Tr = append(wp.Tr, l...)
+			}
+			want = ref.Payload{T: ref.PSA, SA: []ref.Proposal{wp}}
 		case 3:
 			name = "BuildProposal"
 			sa := cont.BuildSecurityAssociation()
